@@ -255,7 +255,26 @@ def fold_factories(im) -> FactoryFold:
             def gen(cls, conv, **kw):
                 r_ = Record("generated_fn", {"direction": direction, "cls": cls, "converter": conv, "overrides": kw})
                 # calling the generated function (a wrapper may): records what it was handed
-                r_.fields["__call__"] = ("host", lambda payload, *a_, **k_: Record("generated_result", {"fn": r_, "payload": payload}))
+                if direction == "structure":
+                    r_.fields["__call__"] = ("host", lambda payload, *a_, **k_: Record("generated_result", {"fn": r_, "payload": payload}))
+                else:
+                    def unstructure(obj, *a_, **k_):
+                        # what cattrs' generated unstructure function does with its overrides (axiom A4): one entry per
+                        # attribute under its wire name, left out when omit_if_default and the value is the default
+                        if not (isinstance(obj, Record) and obj.cls_name == "probe_instance"):
+                            raise AnalysisError(f"{h.rel}: the generated unstructure function is called on something the fold did not make")
+                        out_ = {}
+                        for a in fields_of.get(getattr(cls, "name", None), []):
+                            n_ = a.fields["name"]
+                            o_ = kw.get(n_)
+                            rn = o_.fields.get("rename") if isinstance(o_, Record) else None
+                            om = o_.fields.get("omit_if_default") if isinstance(o_, Record) else False
+                            v_ = obj.fields["values"][n_]
+                            if om and a.fields["default"] != ("NOTHING",) and v_ == a.fields["default"]:
+                                continue
+                            out_[rn or n_] = v_
+                        return out_
+                    r_.fields["__call__"] = ("host", unstructure)
                 made[(direction, getattr(cls, "name", None))] = r_
                 return r_
             return ("host", gen)
@@ -337,7 +356,45 @@ def fold_factories(im) -> FactoryFold:
                                              "make_dict_structure_fn itself: cattrs' native union disambiguator reads its "
                                              "`.overrides` (axiom A2) and would fall back to snake_case keys", reg.lineno))
                         break
-                    raise AnalysisError(f"{h.rel}: the unstructure factory wraps the generated function; its effect is not modelled")
+                    # the unstructure factory returns a wrapper around the generated function: its effect is read off by
+                    # probing it (E5) with an instance whose attributes are all unset and one whose attributes are all set
+                    g_ = made.get((direction, cname))
+                    if g_ is None or not isinstance(r, Closure):
+                        raise AnalysisError(f"{h.rel}: the unstructure factory returns something that is neither the generated "
+                                            "function nor a function wrapping it")
+                    attrs_ = fields_of[cname]
+                    unset = Record("probe_instance", {"values": {a.fields["name"]: (f"<required {a.fields['name']}>" if a.fields["default"] == ("NOTHING",)
+                                                                                    else a.fields["default"]) for a in attrs_}})
+                    allset = Record("probe_instance", {"values": {a.fields["name"]: f"<set {a.fields['name']}>" for a in attrs_}})
+                    try:
+                        d0, d1 = r(unset), r(allset)
+                    except Raised as e:
+                        out.problems.append((f"unstructure-factory:{cname}:wrapper", f"the wrapper around the generated unstructure "
+                                             f"function raises {e.exc_name}", reg.lineno))
+                        continue
+                    if not isinstance(d0, dict) or not isinstance(d1, dict):
+                        out.problems.append((f"unstructure-factory:{cname}:wrapper", "the wrapper around the generated unstructure "
+                                             "function does not return a mapping", reg.lineno))
+                        continue
+                    gov = g_.fields["overrides"]
+                    for a in attrs_:
+                        n_ = a.fields["name"]
+                        wire = next((k_ for k_, v_ in d1.items() if v_ == f"<set {n_}>"), None)
+                        if wire is None:
+                            out.problems.append((f"unstructure-factory:{cname}.{n_}", "a set attribute is missing from what the "
+                                                 "wrapped unstructure function returns", reg.lineno))
+                            continue
+                        if a.fields["default"] == ("NOTHING",):
+                            o_ = gov.get(n_)
+                            omit = bool(o_.fields.get("omit_if_default")) if isinstance(o_, Record) else False
+                        else:
+                            omit = wire not in d0
+                        res[direction][(cname, n_)] = (wire, omit)
+                    extra_keys = set(d1) - {w_ for (c_, _), (w_, _) in res[direction].items() if c_ == cname}
+                    if extra_keys:
+                        out.problems.append((f"unstructure-factory:{cname}:wrapper", f"the wrapped unstructure function adds keys "
+                                             f"{sorted(extra_keys)[:3]} no attribute stands for", reg.lineno))
+                    continue
                 f = r.fields
                 if f["direction"] != direction:
                     out.problems.append((f"{direction}-factory:maker", f"the {direction} factory builds a {f['direction']} function", reg.lineno))
